@@ -534,6 +534,7 @@ func replayRules(c *Ctx, which string) {
 			oa.Undecide("accept closure has a loop")
 			continue
 		}
+		plainInitialTrue := false
 		for _, pt := range apaths {
 			ret, _ := pt.Instrs[len(pt.Instrs)-1].(*ssa.Return)
 			if ret == nil {
@@ -597,7 +598,33 @@ func replayRules(c *Ctx, which string) {
 					if !setArgs[0].eq(linConst(0)) {
 						oa.Fail(ret.Pos(), "after moving the head the bit set is %s, not bit 0", setArgs[0])
 					}
+					for _, v := range retValAt(ret, 0) {
+						if !isConstBool(ptc.value(v), true) {
+							oa.Fail(ret.Pos(), "accept does not report 'latest' although it moved the head")
+						}
+					}
 				} else {
+					// the result may be true only in the initial position (nothing accepted yet, number 0): there the number
+					// becomes the newest accepted one without a head move
+					for _, v := range retValAt(ret, 0) {
+						rv := ptc.value(v)
+						okRes := isConstBool(rv, false)
+						if b, isB := rv.(*ssa.BinOp); isB && b.Op == token.EQL {
+							f := canonSign(w.lin(b.X).add(w.lin(b.Y), -1))
+							switch {
+							case f.eq(canonSign(L)), f.eq(canonSign(L.add(seq, -1))):
+								okRes = true // latest == 0 (with seq <= latest) / seq == latest with its bit clear: only the initial position
+							case f.eq(canonSign(seq)) && (pf.hasEq(L, true) || pf.hasEq(L.add(seq, -1), true)):
+								okRes = true
+							}
+						}
+						if !isConstBool(rv, false) {
+							plainInitialTrue = true
+						}
+						if !okRes {
+							oa.Fail(ret.Pos(), "accept can report 'latest' for a number that is not newer than the newest accepted one (a late number 0 inside the window): the result is %s on a path where the head does not move", rv.String())
+						}
+					}
 					if len(lshArgs) != 0 {
 						oa.Fail(ret.Pos(), "the mask is shifted although the head does not move")
 					}
@@ -637,6 +664,61 @@ func replayRules(c *Ctx, which string) {
 						if !isConstBool(v, false) {
 							oa.Fail(ret.Pos(), "accept reports 'latest' although it did not move the head")
 						}
+					}
+				}
+			}
+		}
+		if !d.wrapped && !plainInitialTrue && !oa.Failed {
+			oa.Fail(d.accept.Pos(), "accept never reports 'latest' without moving the head: the first accepted number 0 (which becomes the newest accepted one in the initial position) is reported as not latest")
+		}
+
+		// R6 no wrap-around of the unsigned arithmetic (plain detector: numbers up to 2^64-1)
+		if !d.wrapped {
+			o6 := c.Obl("R6", d.T, "the plain detector's unsigned 64-bit arithmetic cannot wrap around: every subtraction x-y is evaluated on a path that has established y <= x, and no two variable quantities are added (sequence numbers range up to 2^64-1)", 2)
+			seen := map[ssa.Instruction]bool{}
+			for _, set := range [][]upath{paths, apaths} {
+				for pi := range set {
+					pt := set[pi]
+					pf := evalPath(pt)
+					geq := func(x, y linForm) bool {
+						dd := x.add(y, -1)
+						if dd.OK && len(dd.Coef) == 0 && dd.K >= 0 {
+							return true // the operands are the same quantity (up to a non-negative constant) on this path
+						}
+						return pf.hasIneq(dd.add(linConst(1), 1)) || pf.hasIneq(dd) || pf.hasEq(dd, true)
+					}
+					for _, in := range pt.Instrs {
+						b, ok := in.(*ssa.BinOp)
+						if !ok || (b.Op != token.ADD && b.Op != token.SUB) {
+							continue
+						}
+						bt, ok := b.Type().Underlying().(*types.Basic)
+						if !ok || bt.Info()&types.IsUnsigned == 0 {
+							continue
+						}
+						if !seen[in] {
+							o6.Site(in.Pos(), "%s in %s", b.String(), fname(b.Parent()))
+						}
+						_, cx := constInt(b.X)
+						_, cy := constInt(b.Y)
+						switch {
+						case b.Op == token.ADD && !cx && !cy:
+							if !seen[in] {
+								o6.Fail(in.Pos(), "%s adds two variable unsigned quantities: for sequence numbers within the window size of 2^64 the sum wraps around and the comparison that uses it gives the wrong answer (a fresh number inside the window is refused)", b.String())
+							}
+						case b.Op == token.SUB && !(cx && cy):
+							// the result matters only on paths that go on to use it; a path that has established y <= x is fine
+							used := false
+							for _, rf := range *b.Referrers() {
+								if ri, ok := rf.(ssa.Instruction); ok && pt.indexOf(ri) >= 0 {
+									used = true
+								}
+							}
+							if used && !geq(pf.w.lin(b.X), pf.w.lin(b.Y)) && !seen[in] {
+								o6.Fail(in.Pos(), "%s is evaluated and used on a path that has not established that the subtrahend is not larger (under %s): the unsigned difference wraps around", b.String(), pf.litStr())
+							}
+						}
+						seen[in] = true
 					}
 				}
 			}
